@@ -402,6 +402,13 @@ impl<T: CoordsFloat> CMap3<T> {
                     self.beta_transac::<0>(trans, dart_id)?,
                     self.beta_transac::<1>(trans, b3_dart_id)?,
                 );
+                // the first darts met in this direction are part of the face too
+                if lb != NULL_DART_ID {
+                    min = min.min(lb);
+                }
+                if rb != NULL_DART_ID {
+                    min = min.min(rb);
+                }
                 while marked.insert(lb) || marked.insert(rb) {
                     (lb, rb) = (
                         self.beta_transac::<0>(trans, lb)?,
